@@ -4,6 +4,7 @@ cfg(grafeo_verif) yield-point controller with enumerated / random / TLC-countere
 recorded schedules are validated against the specs (binding C + B)."""
 import json
 import os
+import re
 
 import vcommon as V
 
@@ -27,6 +28,179 @@ def _inject(cfgp, lines):
         txt = f.read()
     with open(cfgp, "w") as f:
         f.write(txt.replace("CONSTANTS\n", "CONSTANTS\n" + lines))
+
+
+LPG_PROGS = {"ProgSpSp": 2, "ProgSpDn": 2, "ProgAlDn": 2, "ProgAlRl": 2, "ProgAlAl": 2, "ProgRlDn": 2, "ProgDnDn": 2, "ProgCnCn": 2, "ProgEdge": 2, "ProgThree": 3}
+LPG_INVS = ["Linearizable", "UniqueIds", "LabelMirror", "PropMirror", "AdjMirror"]
+
+
+def _lpg_signature(prog, obs):
+    """which derived structure disagrees with the primary data in a recorded quiescent observation"""
+    sig = set()
+    gn = obs["gn"]
+    for v in (1, 2, 3):
+        for n in obs["fp"][v - 1]:
+            if gn[n - 1][0] == 1 and gn[n - 1][2] != v:
+                sig.add("prop-index")
+    for n, g in enumerate(gn, 1):
+        if g[0] == 1 and g[2] != 0 and n not in obs["fp"][g[2] - 1]:
+            sig.add("prop-index")
+        if g[0] == 1 and (g[1] == 1) != (n in obs["la"]):
+            sig.add("label-index")
+    for n in obs["la"]:
+        if gn[n - 1][0] == 0:
+            sig.add("label-index")
+    kinds = {o[0] for th in prog["threads"] for o in th}
+    out = set()
+    if "prop-index" in sig and "sp" in kinds:
+        out.add("LpgPropIndexTear")
+    if "label-index" in sig and "al" in kinds and "dn" in kinds:
+        out.add("LpgAddLabelDeleteRace")
+    if "label-index" in sig and "al" in kinds and "rl" in kinds:
+        out.add("LpgLabelAddRemoveTear")
+    return out
+
+
+def _lpg_trace(args):
+    k, path, cfg = args
+    return k, V.tlc(os.path.join(D, "Trace_LpgConc.tla"), cfg, name=f"C20-lpg-{k}", workers=1, timeout=1500, xmx="3g", dfs=True, env={"TRACE": path})
+
+
+def lpg_part(rep, wd, tier, seed):
+    """LpgStore mutators: LpgConc.tla (sections, linearizability), LpgLocks.tla (lock order), controlled and free-running real threads"""
+    import concurrent.futures as cf
+    known = {f["id"]: f for f in V.known_for("C20") if f["status"] == "known"}
+    mcs = []
+    states = trans = 0
+    mcmod = os.path.join(D, "MC_LpgConc.tla")
+    asis_nonlin = set()
+    # ---- 1. TLC: the repaired design (mutators atomic) holds everywhere; the as-is sections are explored too
+    for prog, nth in LPG_PROGS.items():
+        for asis in ("{}", '{"SplitSections"}'):
+            cfgp = os.path.join(wd, f"mc-lpg-{prog}-{len(asis)}.cfg")
+            V.write_cfg(cfgp, constants={"Threads": V.tla_set([str(i) for i in range(1, nth + 1)]), "AsIs": asis},
+                        invariants=LPG_INVS if asis == "{}" else ["Linearizable", "UniqueIds"], check_deadlock=False)
+            _inject(cfgp, f"  Prog <- {prog}\n")
+            r = V.tlc(mcmod, cfgp, name=f"C20lpg{prog}", workers=2, timeout=600)
+            states += r.distinct
+            trans += r.generated
+            if asis == "{}":
+                mcs.append({"config": f"LpgConc {prog} ({nth} threads), mutators atomic, all interleavings", **r.summary()})
+                if not r.ok and not r.timeout:
+                    rep.violation(f"TLC: {r.violation} violated in LpgConc {prog} (repaired design)", {"tlc": V.tlc_trace_text(r)[-5000:]}, tag="mc")
+            else:
+                mcs.append({"config": f"LpgConc {prog} AsIs={{SplitSections}} (the pinned tree's lock scopes)", "violates": r.violation, "distinct": r.distinct})
+                if r.violation == "Linearizable":
+                    asis_nonlin.add(prog)
+                elif not r.ok and not r.timeout:
+                    rep.violation(f"TLC: {r.violation} violated in LpgConc {prog} as-is", {"tlc": V.tlc_trace_text(r)[-5000:]}, tag="mc")
+    if "ProgSpSp" not in asis_nonlin:
+        raise V.ToolError("vacuity: switch SplitSections does not violate Linearizable in LpgConc ProgSpSp")
+    # lock order: every pair / triple of mutators, no deadlock; the pinned tree's add_label / remove_label scopes must deadlock
+    lmod = os.path.join(D, "LpgLocks.tla")
+    for nth in ((2, 3) if tier == "quick" else (2, 3)):
+        cfgp = os.path.join(wd, f"locks-{nth}.cfg")
+        V.write_cfg(cfgp, constants={"Threads": V.tla_set([str(i) for i in range(1, nth + 1)]), "AsIs": "{}"}, invariants=["NoDeadlock", "Ordered"], check_deadlock=False)
+        r = V.tlc(lmod, cfgp, name=f"C20locks{nth}", workers=4, timeout=900)
+        states += r.distinct
+        trans += r.generated
+        mcs.append({"config": f"LpgLocks: any {nth} of 9 LpgStore calls, every interleaving of lock acquisitions", **r.summary()})
+        if not r.ok and not r.timeout:
+            rep.violation(f"TLC: {r.violation} violated in LpgLocks ({nth} threads)", {"tlc": V.tlc_trace_text(r)[-5000:]}, tag="locks")
+    cfgp = os.path.join(wd, "locks-sw.cfg")
+    V.write_cfg(cfgp, constants={"Threads": "{1, 2}", "AsIs": '{"IndexHeldAcrossCount"}'}, invariants=["NoDeadlock"], check_deadlock=False)
+    r = V.tlc(lmod, cfgp, name="C20locksw", workers=2, timeout=300)
+    if r.violation != "NoDeadlock":
+        raise V.ToolError("vacuity: switch IndexHeldAcrossCount does not deadlock in LpgLocks")
+    mcs.append({"config": "witness LpgLocks AsIs={IndexHeldAcrossCount}", "violates": "NoDeadlock", "distinct": r.distinct})
+    # ---- 2. real threads: controlled schedules (all of them for the two-thread programs) + free-running rounds
+    tp = os.path.join(wd, "lpg.ndjson")
+    nrand, nenum = (20, 400) if tier == "quick" else (200, 20000)
+    V.gv(["conc", "--model", "lpg", "--progs", os.path.join(D, "lpg_progs.ndjson"), "--random", nrand, "--enumerate", nenum, "--seed", seed, "--out", tp], timeout=3000)
+    fp = os.path.join(wd, "lpg-free.ndjson")
+    rc, _, _ = V.gv(["lpgstress", "--progs", os.path.join(D, "lpg_progs.ndjson"), "--rounds", 150 if tier == "quick" else 3000, "--limit", 20, "--out", fp], timeout=3000, check=False)
+    free = V.read_ndjson(fp)
+    if rc == 3:
+        h = free.pop()
+        rep.violation(f"LpgStore: threads running {json.dumps(h['prog']['threads'])} at the same time stopped making progress ({h['finished_threads']} of {len(h['prog']['threads'])} finished): deadlock",
+                      {"model": "lpg-loops", "prog": h["prog"], "name": h["name"]}, tag="hang")
+    elif rc != 0:
+        raise V.ToolError(f"gv lpgstress exited {rc}")
+    ev = V.read_ndjson(tp) + free
+    byprog = {}
+    cur = None
+    for e in ev:
+        if e["a"] == "reset":
+            cur = e["name"]
+        byprog.setdefault(cur, []).append(e)
+    cfgp = os.path.join(wd, "trace-lpg.cfg")
+    V.write_cfg(cfgp, spec="TSpec", constants={"AsIs": '{"SplitSections"}'}, postcondition="Accepted")
+    _inject(cfgp, "  Threads <- TThreads\n  Prog <- TProg\n")
+    jobs = []
+    for pn, es in byprog.items():
+        p = os.path.join(wd, f"lpg-{pn}.ndjson")
+        V.write_ndjson(p, es)
+        jobs.append((pn, p, cfgp))
+    runs = nontriv = nev = 0
+    scheds = set()
+    seen = {}
+    with cf.ThreadPoolExecutor(max_workers=6) as ex:
+        for pn, r in ex.map(_lpg_trace, jobs):
+            es = byprog[pn]
+            if r.timeout:
+                raise V.ToolError(f"Trace_LpgConc {pn} timed out")
+            m = re.search(r'<<"REJECT", (\d+)', r.out)
+            if m or "No error has been found" not in r.out:
+                if not m:
+                    V.log(r.out[-3000:])
+                    raise V.ToolError(f"Trace_LpgConc {pn}: TLC failed without a verdict")
+                idx = int(m.group(1))
+                start = max(i for i in range(idx) if es[i]["a"] == "reset")
+                tr = es[start: idx + 1]
+                sched = [e["th"] for e in tr if e["a"] == "step"]
+                rep.violation(f"LpgConc {pn}: schedule {sched} on real threads is not a behaviour of the section model (event #{idx - start}: {json.dumps(es[idx - 1])[:300]})",
+                              {"model": "lpg", "prog": es[start]["prog"], "name": pn, "schedule": sched}, tag="lpg")
+                continue
+            nev += len(es)
+            states += r.distinct
+            for _, tr in V.split_traces(es):
+                runs += 1
+                sc = tuple(e["th"] for e in tr if e["a"] == "step")
+                if sc and (pn, sc) not in scheds:
+                    scheds.add((pn, sc))
+                    if len(set(sc)) > 1:
+                        nontriv += 1
+            for m in re.finditer(r'<<"NONLIN", (\d+)>>', r.out):
+                e = es[int(m.group(1)) - 1]
+                idx = int(m.group(1)) - 1
+                start = max(i for i in range(idx + 1) if es[i]["a"] == "reset")
+                sched = [x["th"] for x in es[start: idx] if x["a"] == "step"]
+                ids = _lpg_signature(es[start]["prog"], e["obs"])
+                if ids and ids <= set(known) and pn in asis_nonlin:
+                    for i in ids:
+                        seen.setdefault(i, (pn, sched, e))
+                else:
+                    rep.violation(f"LpgStore {pn}: real threads {'(free-running) ' if e.get('free') else 'under schedule ' + str(sched) + ' '}returned {json.dumps(e['rets'])} and left "
+                                  f"{json.dumps(e['obs'])[:400]}: no sequential order of the operations explains it (LpgConc.tla LinObs)",
+                                  {"model": "lpg", "prog": es[start]["prog"], "name": pn, "schedule": sched, "end": e}, tag="lpg")
+    for i, k in known.items():
+        if i.startswith("Lpg"):
+            if i in seen:
+                pn, sched, e = seen[i]
+                rep.known(i, k["what_fails"] + f" [{pn}, schedule {sched}]")
+            else:
+                rep.notes.append(f"known finding {i} did not reproduce in this run")
+    # ---- 3. deadlock hunt: tight loops of mutator pairs / triples on one store, watchdog
+    lp = os.path.join(wd, "lpg-loops.ndjson")
+    rc, out, _ = V.gv(["lpgstress", "--progs", os.path.join(D, "lpg_loops.ndjson"), "--loops", 100000 if tier == "quick" else 2000000, "--limit", 60 if tier == "quick" else 600, "--out", lp], timeout=4000, check=False)
+    if rc == 3:
+        h = V.read_ndjson(lp)[-1]
+        rep.violation(f"LpgStore: threads looping over {json.dumps(h['prog']['threads'])} stopped making progress ({h['finished_threads']} of {len(h['prog']['threads'])} threads finished): deadlock",
+                      {"model": "lpg-loops", "prog": h["prog"], "name": h["name"]}, tag="hang")
+    elif rc != 0:
+        raise V.ToolError(f"gv lpgstress exited {rc}")
+    return dict(mcs=mcs, states=states, trans=trans, runs=runs, events=nev, nontriv=nontriv,
+                sample=[{"model": "lpg", "prog": pn, "schedule": list(sc)} for pn, sc in sorted(scheds)[:2]])
 
 
 def run(tier, seed):
@@ -120,7 +294,31 @@ def run(tier, seed):
                       {"model": "stress", "round": rnd}, tag="stress")
     else:
         tot_ev += rounds
-    rep.add(concurrent_commit_rounds=rounds)
+    # ---- 3b. free-running threads: begin races with another thread's commit + gc (no barrier); same judge
+    nfree, iters = (3, 40000) if tier == "quick" else (12, 150000)
+    free_tx = 0
+    for k in range(nfree):
+        fp = os.path.join(wd, f"free-{k}.ndjson")
+        _, out, _ = V.gv(["txstress", "--free", iters, "--threads", 3 + k % 2, "--out", fp], timeout=1800)
+        res = V.validate_trace(os.path.join(V.SPEC, "txn", "FcwHistory.tla"), fcfg, fp, name=f"C20-free-{k}")
+        if not res["accepted"]:
+            w = V.read_ndjson(fp)[res["index"] - 1]
+            bad = [(a, b) for a, b in zip(w["txs"], w["txs"][1:]) if b["s"] < a["c"]]
+            rep.violation(f"free-running begin/commit/gc threads: committed writers of one entity overlap, e.g. {json.dumps(bad[:1])} "
+                          "(the later one took its snapshot before the earlier one committed and still committed): no sequential order of begin/commit/gc explains it (FcwHistory.tla)",
+                          {"model": "stress", "round": w}, tag="free")
+            break
+        free_tx += json.loads(out.strip().splitlines()[-1])["committed"]
+        tot_ev += len(V.read_ndjson(fp))
+    rep.add(concurrent_commit_rounds=rounds, free_running_committed_transactions=free_tx)
+    lp = lpg_part(rep, wd, tier, seed)
+    mcs += lp["mcs"]
+    states += lp["states"]
+    trans += lp["trans"]
+    tot_runs += lp["runs"]
+    tot_ev += lp["events"]
+    nontriv += lp["nontriv"]
+    samples += lp["sample"]
     rep.add(states=states + tot_ev, transitions=trans + tot_ev, model_checking=mcs, traces_validated_against_impl=tot_runs,
             events_validated=tot_ev, evaluations=tot_runs, distinct_nontrivial=nontriv,
             rule="distinct schedules per program (systematic enumeration of the controller's choice tree + seeded random + TLC counterexample schedules); "
@@ -128,7 +326,9 @@ def run(tier, seed):
     rep.assumptions += [
         "interleavings at the granularity of critical sections (yield points between lock releases / atomic operations); sequential consistency; "
         "weak-memory effects of Relaxed atomics are outside the model",
-        "models: RdfStore insert/remove, TransactionManager begin/commit/gc, BufferManager try_allocate/release; LpgStore lock sequences are not modelled yet"]
+        "models: RdfStore insert/remove, TransactionManager begin/commit/gc, BufferManager try_allocate/release, LpgStore create/delete node, add/remove label, "
+        "set property (indexed key), create/delete edge; lock scopes of LpgLocks.tla are transcribed from store.rs by hand (bound to the code by the looping stress only); "
+        "tiered-storage variants, WAL, catalog, query cache and HNSW are not modelled"]
     return rep.finish()
 
 
@@ -142,7 +342,31 @@ def replay(path):
         return 1
     wd = V.workdir("replay-conc")
     pp = os.path.join(wd, "p.ndjson")
+    if r.get("model") == "lpg-loops":
+        V.write_ndjson(pp, [{"name": r["name"], "prog": r["prog"]}])
+        rc, out, _ = V.gv(["lpgstress", "--progs", pp, "--loops", 2000000, "--limit", 60, "--out", os.path.join(wd, "l.ndjson")], timeout=300, check=False)
+        print(out.strip())
+        if rc == 3:
+            print(f"VIOLATION property=C20 replay={path}")
+            return 1
+        return 0
     V.write_ndjson(pp, [{"name": r["name"], "prog": r["prog"], "schedules": [r["schedule"]]}])
+    if r.get("model") == "lpg":
+        tp = os.path.join(wd, "t.ndjson")
+        if r["schedule"]:
+            V.gv(["conc", "--model", "lpg", "--progs", pp, "--random", 0, "--out", tp])
+        else:
+            V.gv(["lpgstress", "--progs", pp, "--rounds", 20000, "--out", tp], timeout=600, check=False)
+        cfgp = os.path.join(wd, "t.cfg")
+        V.write_cfg(cfgp, spec="TSpec", constants={"AsIs": '{"SplitSections"}'}, postcondition="Accepted")
+        _inject(cfgp, "  Threads <- TThreads\n  Prog <- TProg\n")
+        res = V.tlc(os.path.join(D, "Trace_LpgConc.tla"), cfgp, name="replay-lpg", workers=1, timeout=900, dfs=True, env={"TRACE": tp})
+        bad = re.findall(r'<<"(NONLIN|REJECT)", (\d+)', res.out)
+        print(json.dumps({"verdicts": bad[:5], "ok": res.ok}))
+        if bad or not res.ok:
+            print(f"VIOLATION property=C20 replay={path}")
+            return 1
+        return 0
     tp = os.path.join(wd, "t.ndjson")
     V.gv(["conc", "--model", r["model"], "--progs", pp, "--random", 0, "--out", tp])
     m = MODELS[r["model"]]
